@@ -309,8 +309,8 @@ func genCaseC36(t *rapid.T) caseC36 {
 		c.Pieces = append(c.Pieces, p)
 		rem -= p
 	}
-	c.Pre = rapid.SampledFrom([]string{"none", "none", "same", "other", "other"}).Draw(t, "pre")
-	c.DirExists = rapid.IntRange(0, 9).Draw(t, "dirmissing") >= 4
+	c.Pre = rapid.SampledFrom([]string{"none", "none", "same", "other", "other", "other"}).Draw(t, "pre")
+	c.DirExists = rapid.SampledFrom([]bool{true, true, false}).Draw(t, "direxists")
 	if c.Type == backend.ConfigFile {
 		c.DirExists = true
 	}
